@@ -106,6 +106,14 @@ def gen_jobs(tier, seed):
         sh = shapes_for(3)
         rng.shuffle(sh)
         jobs.append({"id": f"C03-t{len(jobs)}", "world": w, "shapes": sh[:24]})
+    # parameter names that the generated entry point also uses for its own purposes
+    for q, job in enumerate(jobs):
+        ren = {"j": "type"} if q % 11 == 3 else {5: {"k": "OVLD"}, 8: {"j": "KWARGS", "k": "MISSING"}}.get(q % 97)
+        if not ren:
+            continue
+        for m in job["world"]["methods"]:
+            m["kwn"] = [ren.get(n, n) for n in m["kwn"]]
+        job["shapes"] = [{"np": sh["np"], "kws": [ren.get(n, n) for n in sh["kws"]]} for sh in job["shapes"]]
     return jobs
 
 
